@@ -417,8 +417,9 @@ static int tk_run(const uint8_t *hist, int n, uint64_t hash[2], void *arg)
 #define F 1      /* faulty client */
 #define S 2      /* state ST_OTHERSTALL: a third, well behaved client that has stopped reading (frames queue up for it) */
 
-enum { ST_WAITCON, ST_FORWARD, ST_TOKEN, ST_PENDING, ST_NOSERVICE, ST_NODEVICE, ST_OTHERSTALL, N_ST };
-static const char *st_name[N_ST] = { "WAIT_CON_REQ", "FORWARD", "FORWARD+token", "FORWARD+pending-write", "FORWARD+no-services", "FORWARD+no-services, capture device closed", "FORWARD, frames queued for a third client that does not read" };
+enum { ST_WAITCON, ST_FORWARD, ST_TOKEN, ST_PENDING, ST_NOSERVICE, ST_NODEVICE, ST_OTHERSTALL, ST_SOLE, N_ST };
+#define W_NOSERV(st) ((st) == ST_NODEVICE || (st) == ST_SOLE)      /* the witness has no services */
+static const char *st_name[N_ST] = { "WAIT_CON_REQ", "FORWARD", "FORWARD+token", "FORWARD+pending-write", "FORWARD+no-services", "FORWARD+no-services, capture device closed", "FORWARD, frames queued for a third client that does not read", "FORWARD, the only client with services (the device is open for it alone)" };
 
 enum { AFT_NONE, AFT_SILENCE, AFT_SILENCE_TIMEOUT, AFT_DISCONNECT, N_AFT };
 static const char *aft_name[N_AFT] = { "continue", "silence", "silence+70s", "disconnect" };
@@ -474,10 +475,13 @@ static void build_templates(void)
           add_tmpl("CHN_RECLAIM_REQ(to daemon)", MSG_TYPE_CHN_RECLAIM_REQ, NULL, 0);
           add_tmpl("type 24 (MSG_TYPE_COUNT)", MSG_TYPE_COUNT, b, 4);
           add_tmpl("type 0xFFFFFFFF", 0xFFFFFFFFu, b, 4); }
+        /* how a client suspends capturing: with the only service client this stops the acquisition and frees the frame queue */
+        memset(&sq, 0, sizeof sq); sq.reset = 1; sq.commit = 1; sq.strict = 0; sq.services = 0;
+        add_tmpl("SERVICE_REQ(reset, no services)", MSG_TYPE_SERVICE_REQ, &sq, sizeof sq);
 }
 
 /* a fault case */
-enum { MU_NONE, MU_LEN, MU_TYPE, MU_BYTE, MU_TRUNC, MU_PAIR, MU_STRICT, MU_LENTAIL };
+enum { MU_NONE, MU_LEN, MU_TYPE, MU_BYTE, MU_TRUNC, MU_PAIR, MU_STRICT, MU_LENTAIL, MU_SPLIT };
 struct fcase { uint8_t state, tmpl, kind, aft; int32_t pos; uint32_t val; };
 static struct fcase *FC; static uint64_t nFC, capFC;
 static void add_case(int st, int tm, int kind, int pos, uint32_t val, int aft)
@@ -516,6 +520,16 @@ static void build_cases(void)
                                         if (!thorough && aft == AFT_SILENCE_TIMEOUT && p > 12 && st != ST_WAITCON) continue;
                                         add_case(st, tm, MU_TRUNC, p, 0, aft);
                                 }
+                        /* a valid message arriving in two segments with a frame captured in between: the frame is queued for the
+                         * sender (its connection is "read in progress") when the rest of the message is processed (seed C19-8) */
+                        {
+                                int len = 8 + T[tm].blen, sp[5] = { 1, 7, 8, 9, len - 1 };
+                                for (int k = 0; k < 5; k++) {
+                                        int dup = 0; for (int j = 0; j < k; j++) if (sp[j] == sp[k]) dup = 1;
+                                        if (!dup && sp[k] >= 1 && sp[k] < len) add_case(st, tm, MU_SPLIT, sp[k], 0, AFT_NONE);
+                                }
+                                if (thorough) for (int q = 2; q < len - 1; q++) if (q != 7 && q != 8 && q != 9) add_case(st, tm, MU_SPLIT, q, 0, AFT_NONE);
+                        }
                         /* two messages in one segment */
                         for (int t2 = 0; t2 < nT; t2++) if (thorough || t2 < 12) add_case(st, tm, MU_PAIR, t2, 0, AFT_NONE);
                 }
@@ -546,7 +560,7 @@ static void check_witness(const char *key, const struct fcase *fc, int frames_ex
         env_client *w = &env_clnt[W];
         if (w->eof || w->fd < 0) { mc_violation(key, "witness connection dropped"); return; }
         int next = 0, bad = 0;
-        if (fc->state == ST_NODEVICE) {
+        if (W_NOSERV(fc->state)) {
                 /* the witness has no services: it is owed no frame, whatever the other client makes the device capture */
                 for (int i = 0; i < w->nlog; i++) {
                         if (w->log[i].type == 0xFFFFFFFF) { mc_violation(key, "witness received garbage framing (len %u)", w->log[i].len); return; }
@@ -606,7 +620,8 @@ static size_t build_bytes(const struct fcase *fc, uint8_t *out, size_t *sendlen,
 }
 
 static uint8_t fbytes[4 * sizeof(VBIPROXY_MSG) + 4096]; static size_t fsend;
-static void act_send_fault(int c) { if (env_send_raw(c, fbytes, fsend) != (int) fsend) mc_violation("harness: fault bytes not accepted by the socket", "%zu bytes", fsend); }
+static size_t foff;
+static void act_send_fault(int c) { if (env_send_raw(c, fbytes + foff, fsend) != (int) fsend) mc_violation("harness: fault bytes not accepted by the socket", "%zu bytes", fsend); }
 
 struct run_result { uint64_t final_hash, image, image_nomsg; int f_alive, frames; };
 
@@ -619,7 +634,7 @@ static void scenario(const struct fcase *fc, int mode, struct run_result *rr, co
         env_init(); reset_observer();
         cur_letter = "fault scenario"; cur_sender_state = -1;
         /* ST_NODEVICE: nobody has services, the capture device stays closed (no frames); W is connected without services */
-        if (fc->state == ST_NODEVICE) full_connect(W, 0, 0); else full_connect(W, VBI_SLICED_TELETEXT_B | VBI_SLICED_VPS, 0);
+        if (W_NOSERV(fc->state)) full_connect(W, 0, 0); else full_connect(W, VBI_SLICED_TELETEXT_B | VBI_SLICED_VPS, 0);
         drive(act_frame, 1); frames++;
         if (fc->state == ST_OTHERSTALL) { full_connect(S, VBI_SLICED_TELETEXT_B, 0); env_clnt[S].stalled = 1; }     /* also in the reference run */
         if (mode == 0) {
@@ -630,6 +645,7 @@ static void scenario(const struct fcase *fc, int mode, struct run_result *rr, co
                                  tk_prio = VBI_CHN_PRIO_BACKGROUND; tk_valid = 1; tk_sub = 0x10; tk_dur = 0; drive(act_token_req, F); break;
                 case ST_PENDING: full_connect(F, VBI_SLICED_TELETEXT_B, 0); env_clnt[F].stalled = 1; break;
                 case ST_NOSERVICE: case ST_NODEVICE: full_connect(F, 0, 0); break;
+                case ST_SOLE: full_connect(F, VBI_SLICED_TELETEXT_B | VBI_SLICED_CAPTION_625, 1); break;
                 }
         }
         drive(act_frame, 1); frames++;
@@ -637,7 +653,15 @@ static void scenario(const struct fcase *fc, int mode, struct run_result *rr, co
         if (fc->state == ST_PENDING || fc->state == ST_OTHERSTALL) { drive(act_frame, 1); frames++; }
         if (mode == 0) {
                 build_bytes(fc, fbytes, &fsend, &flush_allowed);
+                foff = 0;
+                if (fc->kind == MU_SPLIT) {
+                        size_t all = fsend;
+                        fsend = (size_t) fc->pos; drive(act_send_fault, F);
+                        drive(act_frame, 1); frames++;
+                        foff = (size_t) fc->pos; fsend = all - foff;
+                }
                 drive(act_send_fault, F);
+                foff = 0;
                 /* F still does not read while the daemon takes its message: the message is processed with F's frame queued
                  * (a FLUSH then discards queued buffers that are still referenced); then F reads again */
                 if (fc->state == ST_PENDING) { drive(act_nothing, 0); env_clnt[F].stalled = 0; drive(act_nothing, 0); }
@@ -690,13 +714,13 @@ static void scenario(const struct fcase *fc, int mode, struct run_result *rr, co
         env_shutdown();
 }
 
-static uint64_t ref_final, ref_final_nodev, ref_final_otherstall; static int ref_fds = -1;
+static uint64_t ref_final, ref_final_nodev, ref_final_otherstall, ref_final_sole; static int ref_fds = -1;
 static uint64_t strict_images[2][N_ST][4][2]; static int strict_images_ok;
 static uint64_t strict_closed_image[2][N_ST][2];
 
 static void describe(const struct fcase *fc, char *key, size_t klen, char *det, size_t dlen)
 {
-        static const char *kn[] = { "valid message", "header length", "header type", "body byte", "truncated", "two messages in one segment", "strict field", "header length + tail" };
+        static const char *kn[] = { "valid message", "header length", "header type", "body byte", "truncated", "two messages in one segment", "strict field", "header length + tail", "two segments" };
         const struct tmpl *t = &T[fc->tmpl];
         switch (fc->kind) {
         case MU_LEN: case MU_LENTAIL: {
@@ -707,6 +731,7 @@ static void describe(const struct fcase *fc, char *key, size_t klen, char *det, 
         case MU_BYTE: snprintf(key, klen, "fault: %s body byte %d in state %s", t->name, fc->pos, st_name[fc->state]); break;
         case MU_TRUNC: snprintf(key, klen, "fault: %s truncated (%s) in state %s then %s", t->name, fc->pos < 8 ? "inside header" : "inside body", st_name[fc->state], aft_name[fc->aft]); break;
         case MU_PAIR: snprintf(key, klen, "fault: %s + %s in one segment in state %s", t->name, T[fc->pos].name, st_name[fc->state]); break;
+        case MU_SPLIT: snprintf(key, klen, "fault: valid %s arriving in two segments (cut %s) with a frame captured in between in state %s", t->name, fc->pos < 8 ? "inside header" : fc->pos == 8 ? "after header" : "inside body", st_name[fc->state]); break;
         case MU_STRICT: snprintf(key, klen, "fault: %s strict %s in state %s", t->name, ((int32_t) fc->val < -1 || (int32_t) fc->val > 2) ? "out of range" : "in range", st_name[fc->state]); break;
         default: snprintf(key, klen, "fault: valid %s in state %s then %s", t->name, st_name[fc->state], aft_name[fc->aft]); break;
         }
@@ -723,6 +748,8 @@ static void ensure_refs(void)
         scenario(&dummy, 1, &rr, "reference run without a faulty client"); ref_final = rr.final_hash;
         dummy.state = ST_NODEVICE;
         scenario(&dummy, 1, &rr, "reference run without a faulty client"); ref_final_nodev = rr.final_hash;
+        dummy.state = ST_SOLE;
+        scenario(&dummy, 1, &rr, "reference run without a faulty client"); ref_final_sole = rr.final_hash;
         dummy.state = ST_OTHERSTALL;
         scenario(&dummy, 1, &rr, "reference run without a faulty client"); ref_final_otherstall = rr.final_hash;
         /* images for the strict oracle: the four in-range values and a rejection, per state and message */
@@ -753,7 +780,7 @@ static void fault_case(uint64_t idx, void *arg)
                 size_t heap0 = heap_now();
                 struct run_result rr; memset(&rr, 0, sizeof rr);
                 scenario(fc, 0, &rr, key);
-                if (rr.final_hash != (fc->state == ST_NODEVICE ? ref_final_nodev : fc->state == ST_OTHERSTALL ? ref_final_otherstall : ref_final)) mc_violation(key, "%s: daemon state after the faulty client left differs from a run without it", det);
+                if (rr.final_hash != (fc->state == ST_NODEVICE ? ref_final_nodev : fc->state == ST_SOLE ? ref_final_sole : fc->state == ST_OTHERSTALL ? ref_final_otherstall : ref_final)) mc_violation(key, "%s: daemon state after the faulty client left differs from a run without it", det);
                 int fds1 = count_open_fds();
                 if (fds0 >= 0 && fds1 != fds0) mc_violation(key, "%s: %d file descriptors leaked", det, fds1 - fds0);
                 /* heap bytes in use must be back at the level before the scenario; LeakSanitizer (slow) names the block */
